@@ -561,7 +561,7 @@ class ObjectMethod(DeserializationMethod):
     additional_properties: bool
     typed_dict: bool
     validators: Tuple[Validator, ...]
-    init_defaults: Tuple[Tuple[str, Optional[Callable[[], Any]]], ...]
+    init_defaults: Tuple[Tuple[str, str, Optional[Callable[[], Any]]], ...]
     post_init_modified: AbstractSet[str]
     aliaser: Aliaser
     missing: str
@@ -693,10 +693,11 @@ class ObjectMethod(DeserializationMethod):
             init = None
             if self.init_defaults:
                 init = {}
-                for name, default_factory in self.init_defaults:
+                for name, alias, default_factory in self.init_defaults:
                     if name in values:
                         init[name] = values[name]
-                    elif not field_errors or name not in field_errors:
+                    # errors are keyed by alias
+                    elif not field_errors or alias not in field_errors:
                         assert default_factory is not None
                         init[name] = default_factory()
             aliases = values.keys()
